@@ -45,6 +45,7 @@ type SynDiag struct {
 
 func genC36(t *rapid.T) C36Case {
 	wl := genErrorWL(t)
+	wl.dropOverride() // (the experimental compiler takes descriptor.proto from source.WKTs())
 	c := C36Case{WL: wl, Roots: genRequest(t, wl.names())}
 	if rapid.IntRange(0, 3).Draw(t, "hub") == 0 {
 		c.Roots = addHubClash(t, &c.WL)
